@@ -33,11 +33,56 @@ def enum_member(e: ast.AST, *members: str) -> Optional[str]:
     return None
 
 
+def resolve_named_constant(n: ast.AST) -> Optional[ast.AST]:
+    """`self.X` / `cls.X` / `ClassName.X` / module-level `X` (upper-case by convention) -> the expression it is bound to at class or
+    module level, following the MRO inside the repository.  Lets guards written against a named constant
+    (`state in self._CLOSING_STATES`) be read like the literal they stand for."""
+    mod = getattr(n, '_module', None)
+    if mod is None:
+        return None
+    if isinstance(n, ast.Name):
+        return const_value(None, mod, n.id)
+    if isinstance(n, ast.Attribute) and isinstance(n.value, ast.Name):
+        cls_node = None
+        if n.value.id in ('self', 'cls'):
+            cls_node = next((a for a in ancestors(n) if isinstance(a, ast.ClassDef)), None)
+        else:
+            for st in mod.tree.body:
+                if isinstance(st, ast.ClassDef) and st.name == n.value.id:
+                    cls_node = st
+        seen = 0
+        while cls_node is not None and seen < 6:
+            seen += 1
+            for st in cls_node.body:
+                if isinstance(st, (ast.Assign, ast.AnnAssign)):
+                    tg = st.targets if isinstance(st, ast.Assign) else [st.target]
+                    if any(isinstance(t, ast.Name) and t.id == n.attr for t in tg) and st.value is not None:
+                        return st.value
+            info = getattr(cls_node, '_info', None)
+            nxt = None
+            if info is not None and _REPO[0] is not None:
+                bases = _REPO[0].base_infos(info)
+                nxt = bases[0].node if bases else None
+            cls_node = nxt
+    return None
+
+
+from sa.astx import CURRENT_REPO as _REPO
+
+
 def enum_members_in(e: ast.AST) -> set[str]:
     out = set()
     for n in ast.walk(e):
         if isinstance(n, ast.Attribute) and n.attr.isupper() and n.attr not in ('VALUE', 'MESSAGE_ID'):
-            out.add(n.attr)
+            d = resolve_named_constant(n) if n.attr.replace('_', '').isupper() and isinstance(n.value, ast.Name) and n.value.id in ('self', 'cls') else None
+            if d is not None:
+                out |= enum_members_in(d)
+            else:
+                out.add(n.attr)
+        elif isinstance(n, ast.Name) and n.id.isupper() and len(n.id) > 3 and isinstance(n.ctx, ast.Load):
+            d = resolve_named_constant(n)
+            if d is not None and not isinstance(d, ast.Constant):
+                out |= enum_members_in(d)
     return out
 
 
